@@ -14,16 +14,18 @@ struct Flags {
 	rc: bool,
 	lz4: bool,
 	uniform: bool,
+	btree: bool,
 }
 impl Flags {
 	fn bits(&self) -> u64 {
-		(self.preimage as u64) | (self.rc as u64) << 1 | (self.lz4 as u64) << 2 | (self.uniform as u64) << 3
+		(self.preimage as u64) | (self.rc as u64) << 1 | (self.lz4 as u64) << 2 | (self.uniform as u64) << 3 | (self.btree as u64) << 4
 	}
 	fn opts(&self) -> ColumnOptions {
 		ColumnOptions {
 			preimage: self.preimage,
 			uniform: self.uniform,
 			ref_counted: self.rc,
+			btree_index: self.btree,
 			compression: if self.lz4 { CompressionType::Lz4 } else { CompressionType::NoCompression },
 			..Default::default()
 		}
@@ -99,16 +101,16 @@ pub fn main(args: &[String]) -> i32 {
 		for _ in 0..ncols {
 			let rc = rng.chance(1, 2);
 			let uniform = rng.chance(1, 3);
-			let s = Flags { preimage: rc || rng.chance(1, 3), rc, lz4: rng.chance(1, 3), uniform };
+			let s = Flags { preimage: rc || rng.chance(1, 3), rc, lz4: rng.chance(1, 3), uniform, btree: false };
 			// destination keeps the hashing scheme (uniform flag), may change the rest
 			let d = if rng.chance(1, 4) {
 				s.clone()
 			} else {
 				let drc = rng.chance(1, 2);
-				Flags { preimage: drc || rng.chance(1, 3), rc: drc, lz4: rng.chance(1, 2), uniform }
+				Flags { preimage: drc || rng.chance(1, 3), rc: drc, lz4: rng.chance(1, 2), uniform, btree: false }
 			};
 			let (s, d) = if boundary.is_some() {
-				let f = Flags { preimage: true, rc: true, lz4: false, uniform };
+				let f = Flags { preimage: true, rc: true, lz4: false, uniform, btree: false };
 				(f.clone(), f)
 			} else {
 				(s, d)
@@ -117,6 +119,34 @@ pub fn main(args: &[String]) -> i32 {
 			forced.push(boundary.is_some() || rng.chance(1, 3));
 			src.push(s);
 			dst.push(d);
+		}
+		// btree family (1 case in 10): migration is only implemented between hash columns. A btree column that is not
+		// selected is copied as files like any other; a selected one (forced, or hash -> btree) makes the call fail
+		// before anything is written (model: C20_refused_iff, error code 2)
+		let mut expect_refusal = 0u64;
+		if boundary.is_none() && rng.chance(1, 10) {
+			let c = rng.below(ncols as u64) as usize;
+			let b = Flags { preimage: false, rc: false, lz4: rng.chance(1, 2), uniform: false, btree: true };
+			match rng.below(3) {
+				0 => {
+					src[c] = b.clone();
+					dst[c] = b;
+					forced[c] = false;
+					*dist.entry("btree-column-copied".to_string()).or_insert(0) += 1;
+				},
+				1 => {
+					src[c] = b.clone();
+					dst[c] = b;
+					forced[c] = true;
+					expect_refusal = 2;
+					*dist.entry("btree-column-forced-refused".to_string()).or_insert(0) += 1;
+				},
+				_ => {
+					dst[c] = b;
+					expect_refusal = 2;
+					*dist.entry("hash-to-btree-refused".to_string()).or_insert(0) += 1;
+				},
+			}
 		}
 		let overwrite = rng.chance(1, 4);
 		let nkeys = if boundary.is_some() { rng.range(8, 12) as usize } else { rng.range(2, 12) as usize };
@@ -222,8 +252,39 @@ pub fn main(args: &[String]) -> i32 {
 		let read_dir = if overwrite { &sdir } else { &ddir };
 		let mut obs = vec![status];
 		let mut verdict: Result<(), String> = Ok(());
-		if status != 0 {
+		let errcode = match &res {
+			Ok(Err(e)) => {
+				let m = format!("{e:?}");
+				if m.contains("columns mismatch") {
+					1u64
+				} else if m.contains("only implemented for hash") {
+					2
+				} else {
+					9
+				}
+			},
+			_ => 0,
+		};
+		if status == 1 {
+			obs.push(errcode);
+		}
+		if status != 0 && expect_refusal != 0 && errcode == expect_refusal {
+			// a refused call must leave the source as it was
+			let sdb = Db::open(&options(&sdir, &src, salt)).unwrap();
+			for c in 0..ncols {
+				for k in 0..nkeys {
+					let (present, vtok, _) = content[c][k];
+					let got = sdb.get(c as u8, &key_bytes(c, k, src[c].uniform, tag)).unwrap();
+					let want = if present { Some(value_bytes(vtok)) } else { None };
+					if got != want && verdict.is_ok() {
+						verdict = Err(format!("source-modified col {c} key {k} of the source changed although the migration was refused"));
+					}
+				}
+			}
+		} else if status != 0 {
 			verdict = Err(format!("migrate-failed migrate returned {:?}", res.as_ref().map(|r| r.as_ref().map_err(|e| format!("{e:?}")))));
+		} else if expect_refusal != 0 {
+			verdict = Err(format!("migrate-accepted-btree a selected btree column was accepted: src {:?} dst {:?} forced {:?}", src, dst, forced));
 		} else {
 			let db = Db::open(&options(read_dir, &dst, salt)).unwrap();
 			for c in 0..ncols {
